@@ -34,6 +34,8 @@ Apply(e) ==
       [] e.ev = "quiet"   -> PQuiet(e.blocked)
       [] e.ev = "final"   -> PFinal
       [] e.ev \in {"leak", "note", "end", "spin"} -> UNCHANGED pvars
+      \* controller-level events of traces recorded with -logsteps (judged by CCallXTrace.tla only)
+      [] e.ev \in {"step", "scen", "teardown"} -> UNCHANGED pvars
       [] OTHER            -> /\ bad' = bad \cup {"Unexplained"}
                              /\ UNCHANGED <<kinds, phase, calls, outs, cancelled>>
 
